@@ -367,4 +367,4 @@ for al, short, e, props, label in (('DECOMMISSION', 'decom', 'd', ['C04', 'C14']
     for part in ('iter', 'exit'):
         ob(name='dtor_is.%s.%s' % (label, part), kind='IS', props=props, unit='dtor_is', harness='h_dtor_is.c', entry='%s_%s' % (e, part), outline={al: short}, defines={'WANT_' + short.upper(): 1},
            enforce='%s__%s' % (short, part), min_reach=1, bound='none: lists of any length (inductive step over the outlined loop of the real function)')
-LEVELS['C04'] = 'proof'
+LEVELS['C04'] = 'proof'; LEVELS['C14'] = 'proof'
